@@ -1,11 +1,11 @@
-\* required behaviour: 6 phases x flag x lists of <= 3 models (or None), then every lifecycle of <= 4 steps over <= 4 species
+\* required behaviour: 6 phases x flag x lists of <= 3 models (or None), then every lifecycle of <= 4 steps over <= 3 species
 SPECIFICATION Spec
 CONSTANTS
   Phases <- MCPhases
   SibPhases <- MCSibPhases
   Givens <- MCGivens
   AttachKinds <- MCAttach
-  MaxObjs = 4
+  MaxObjs = 3
   MaxSteps = 5
   Alias = FALSE
   IgnoreFlag = FALSE
